@@ -1,0 +1,76 @@
+//go:build verif
+
+// Contracts for the verification machinery in /verif (comment-only; never compiled into a binary).
+// Property C04: gang scheduling is all-or-nothing; a member is in exactly one of pending/waiting/bound.
+
+package core
+
+//@ spec func podKey(pod *corev1.Pod) string = util.GetId(pod.ObjectMeta.Namespace, pod.ObjectMeta.Name)
+
+//@ spec func disjoint3(g *Gang) bool = forall id string :: !(has(g.PendingChildren, id) && has(g.WaitingForBindChildren, id)) && !(has(g.PendingChildren, id) && has(g.BoundChildren, id)) && !(has(g.WaitingForBindChildren, id) && has(g.BoundChildren, id))
+
+//@ spec func covered(g *Gang) bool = forall id string :: has(g.Children, id) ==> has(g.PendingChildren, id) || has(g.WaitingForBindChildren, id) || has(g.BoundChildren, id)
+
+//@ spec func nonnil(g *Gang) bool = forall id string :: (has(g.Children, id) ==> g.Children[id] != nil) && (has(g.PendingChildren, id) ==> g.PendingChildren[id] != nil) && (has(g.WaitingForBindChildren, id) ==> g.WaitingForBindChildren[id] != nil) && (has(g.BoundChildren, id) ==> g.BoundChildren[id] != nil)
+
+//@ spec func coveredAt(g *Gang, id string) bool = has(g.Children, id) ==> has(g.PendingChildren, id) || has(g.WaitingForBindChildren, id) || has(g.BoundChildren, id)
+
+//@ spec func mapsOK(g *Gang) bool = g != nil && g.Children != nil && g.PendingChildren != nil && g.WaitingForBindChildren != nil && g.BoundChildren != nil && g.GangGroupInfo != nil && g.GangGroupInfo.WaitingGangIDs != nil && g.Children != g.PendingChildren && g.Children != g.WaitingForBindChildren && g.Children != g.BoundChildren && g.PendingChildren != g.WaitingForBindChildren && g.PendingChildren != g.BoundChildren && g.WaitingForBindChildren != g.BoundChildren
+
+//@ func (*Gang).isGangValidForPermit [C04]
+//@   requires gang != nil && gang.GangGroupInfo != nil
+//@   ensures #policy: result <==> (gang.HasGangInit && (gang.GangMatchPolicy == extension.GangMatchPolicyOnlyWaiting ? len(gang.WaitingForBindChildren) >= gang.MinRequiredNumber : (gang.GangMatchPolicy == extension.GangMatchPolicyWaitingAndRunning ? len(gang.WaitingForBindChildren) + len(gang.BoundChildren) >= gang.MinRequiredNumber : (len(gang.WaitingForBindChildren) >= gang.MinRequiredNumber || gang.GangGroupInfo.OnceResourceSatisfied))))
+//@   modifies nothing
+
+//@ func (*Gang).setChild [C04]
+//@   requires mapsOK(gang) && pod != nil
+//@   requires disjoint3(gang) && covered(gang) && nonnil(gang)
+//@   ensures #partition: disjoint3(gang)
+//@   ensures #nonnil: nonnil(gang)
+//@   ensures #covered: forall id string :: id != podKey(pod) || pod.Spec.NodeName == "" || old(has(gang.Children, id)) ==> coveredAt(gang, id)
+//@   ensures #child: has(gang.Children, podKey(pod)) && gang.Children[podKey(pod)] == pod
+//@   ensures #others: forall id string :: id != podKey(pod) ==> (has(gang.Children, id) == old(has(gang.Children, id)) && has(gang.PendingChildren, id) == old(has(gang.PendingChildren, id)))
+//@   modifies contents(gang.Children), contents(gang.PendingChildren)
+
+//@ func (*Gang).addAssumedPod [C04]
+//@   requires nonnil(gang)
+//@   ensures #nonnil: nonnil(gang)
+//@   requires mapsOK(gang) && pod != nil
+//@   requires disjoint3(gang) && covered(gang)
+//@   requires !has(gang.BoundChildren, podKey(pod))
+//@   ensures #partition: disjoint3(gang)
+//@   ensures #covered: covered(gang)
+//@   ensures #waiting: has(gang.WaitingForBindChildren, podKey(pod)) && !has(gang.PendingChildren, podKey(pod))
+//@   ensures #others: forall id string :: id != podKey(pod) ==> (has(gang.WaitingForBindChildren, id) == old(has(gang.WaitingForBindChildren, id)) && has(gang.PendingChildren, id) == old(has(gang.PendingChildren, id)))
+//@   modifies contents(gang.WaitingForBindChildren), contents(gang.PendingChildren)
+
+//@ func (*Gang).delAssumedPod [C04]
+//@   requires nonnil(gang)
+//@   ensures #nonnil: nonnil(gang)
+//@   requires mapsOK(gang) && pod != nil
+//@   requires disjoint3(gang) && covered(gang)
+//@   ensures #partition: disjoint3(gang)
+//@   ensures #covered: covered(gang)
+//@   ensures #gone: !has(gang.WaitingForBindChildren, podKey(pod))
+//@   ensures #back: old(has(gang.WaitingForBindChildren, podKey(pod))) && has(gang.Children, podKey(pod)) ==> has(gang.PendingChildren, podKey(pod))
+//@   ensures #noop: !old(has(gang.WaitingForBindChildren, podKey(pod))) ==> (forall id string :: has(gang.PendingChildren, id) == old(has(gang.PendingChildren, id)))
+
+//@ func (*Gang).addBoundPod [C04]
+//@   requires nonnil(gang)
+//@   ensures #nonnil: nonnil(gang)
+//@   requires mapsOK(gang) && pod != nil
+//@   requires disjoint3(gang) && covered(gang)
+//@   ensures #partition: disjoint3(gang)
+//@   ensures #covered: covered(gang)
+//@   ensures #bound: has(gang.BoundChildren, podKey(pod)) && !has(gang.WaitingForBindChildren, podKey(pod)) && !has(gang.PendingChildren, podKey(pod))
+//@   ensures #satisfied: gang.GangGroupInfo.OnceResourceSatisfied
+
+//@ func (*Gang).deletePod [C04]
+//@   requires nonnil(gang)
+//@   ensures #nonnil: nonnil(gang)
+//@   requires mapsOK(gang)
+//@   requires disjoint3(gang) && covered(gang)
+//@   ensures #partition: disjoint3(gang)
+//@   ensures #covered: covered(gang)
+//@   ensures #gone: pod != nil ==> !has(gang.Children, podKey(pod)) && !has(gang.PendingChildren, podKey(pod)) && !has(gang.WaitingForBindChildren, podKey(pod)) && !has(gang.BoundChildren, podKey(pod))
+//@   ensures #result: result <==> (pod != nil && gang.GangFrom == GangFromPodAnnotation && len(gang.Children) == 0)
